@@ -17,7 +17,7 @@ type Primitive struct {
 	ExclusiveMaximum *bool        `json:"exclusiveMaximum,omitempty"`
 	MinLength        *int64       `json:"minLength,omitempty"`
 	MaxLength        *int64       `json:"maxLength,omitempty"`
-	MultipleOf       *float64     `json:"multipleOf,omitempty"`
+	MultipleOf       *Number      `json:"multipleOf,omitempty"`
 	Nullable         *Nullable    `json:"nullable,omitempty"`
 	Description      *Description `json:"description,omitempty"`
 }
